@@ -52,7 +52,6 @@ package s2
 // the expensive stage answers zero exactly when two arguments are equal
 //@ func expensiveSign(a, b, c Point) Direction
 //@   fpcmp
-//@   requires vcNoNaN3(a, b, c)
 //@   ensures [zero-iff-repeated] (result == 0) == (a == b || b == c || c == a)
 //@   ensures [range] result == -1 || result == 0 || result == 1
 // numerical: whenever the fast stage decides, it agrees with this stage, i.e. this stage is the oracle's value (used by C03)
